@@ -23,4 +23,12 @@ def withFault (x : Exchange) (foids : List Oid) (status index : Int) (vbs' : Opt
       | .error e => .error e
     else x r
 
+/-- `x`, except that every GETBULK whose first OID is `t` or above is answered with no binding at
+    all (an agent that has nothing left to say, e.g. to a completion request for later columns) -/
+def starve (x : Exchange) (t : Oid) : Exchange :=
+  fun r =>
+    match r with
+    | .getbulk _ _ (o :: _) => if o < t then x r else .ok []
+    | _ => x r
+
 end Snmp.Fault
